@@ -282,6 +282,8 @@ def cases(tier):
         yield {'label': label, 'nodes': nodes, 'tier': tier}
     for label, a, b in entity_programs():
         yield {'label': label, 'nodes': b, 'entity_nodes': a, 'tier': tier}
+    for tag in ('if', 'in', 'unless', 'with'):
+        yield {'label': 'spelling', 'tag': tag}
     # entity equivalences
     for name in ('x', 'sequence-item', 'a-b-c', 'x_y', 'x.y', 'q-', 'x9'):
         for mods in [['html_quote']] + [[m] for m in MODS] + \
@@ -344,8 +346,68 @@ def observe(t, ns):
     return out + [w.log]
 
 
+SPELL_SHELLS = {
+    'dtml': ('<dtml-%s %s>A<dtml-else%s>B</dtml-%s%s>', 'HTML'),
+    'ssi': ('<!--#%s %s-->A<!--#else%s-->B<!--#/%s%s-->', 'HTML'),
+    'epfs': ('%%(%s %s)[A%%(else%s)[B%%(%s%s)]', 'String'),
+}
+SPELL_START = ['x', 'name=x', 'name="x"', 'x ', '"x"', 'expr="x"']
+SPELL_ELSE = ['', ' x', ' name=x', ' name="x"', ' y', ' "x"', '  x']
+SPELL_END = ['', ' x', ' name=x', ' y']
+
+
+def run_spelling(res, case):
+    """if / in with an else that repeats (or does not repeat) the object's
+    name, in every combination of spellings: whatever one syntax makes of a
+    combination - a program, or a rejection - the other two make as well"""
+    import DocumentTemplate
+    tag = case['tag']
+    n = 0
+    for st in SPELL_START:
+        for el in SPELL_ELSE:
+            for en in SPELL_END:
+                seen = {}
+                for sx, (shell, cls) in SPELL_SHELLS.items():
+                    src = shell % (tag, st, el, tag, en)
+                    t = getattr(DocumentTemplate, cls)(src)
+                    try:
+                        t.cook()
+                        fp = ['ok', fingerprint(t._v_blocks)]
+                        obs = [observe(t, ns) for ns in NAMESPACES[:2]]
+                    except CaseTimeout:
+                        raise
+                    except Exception as e:
+                        fp, obs = ['rejected', type(e).__name__], None
+                    seen[sx] = (src, fp, obs)
+                    n += 1
+                base = seen['dtml']
+                for sx in ('ssi', 'epfs'):
+                    src, fp, obs = seen[sx]
+                    if fp != base[1]:
+                        res.violate('same-program', 'compiled:%s:spelling-%s'
+                                    % (sx, tag),
+                                    {'base': base[0], 'variant': src,
+                                     'base_outcome': base[1][0],
+                                     'variant_outcome': fp[0]},
+                                    dict(case))
+                    elif obs != base[2]:
+                        res.violate('same-rendering', 'rendered:%s:spelling-%s'
+                                    % (sx, tag),
+                                    {'base': base[0], 'variant': src,
+                                     'base_result': base[2],
+                                     'variant_result': obs}, dict(case))
+    res.evals = n
+    res.count('programs', n)
+    res.count('pairs', n)
+    res.nontrivial = True
+    res.outcome = 'spelling'
+    return res
+
+
 def run(case):
     res = Res()
+    if case['label'] == 'spelling':
+        return run_spelling(res, case)
     if case['label'] == 'entity':
         return run_entity(res, case)
     nodes = case['nodes']
